@@ -273,12 +273,14 @@ class Barrier(Payoff):
             self.process = self.__barrier_event_up
 
     def __barrier_event_down(self, _, path):
+        self.barrier_event = False
         for value in path:
             if value < self.barrier:
                 self.barrier_event = True
                 break
 
     def __barrier_event_up(self, _, path):
+        self.barrier_event = False
         for value in path:
             if value > self.barrier:
                 self.barrier_event = True
